@@ -117,8 +117,8 @@ CLAIMED = {
          "linalg_constrained_qrsolve",
          "tikhonov / imc_solution: the inverse csg_imc_solve builds solves (AᵀA + r)x = -Aᵀb; unique for r > 0; kkt_optimal: feasibility + stationarity imply "
          "the constrained minimum; split_partition. Tied to the working tree by running the executable on generated files (exact residual for the file's "
-         "matrix, exact solution, table split) and the library routine (KKT residuals).",
-         "Lean kernel + three standard axioms; Eigen kernels external (certified per run); PARTIAL: csg_fmatch's assembly and block averaging not modelled.",
+         "matrix, exact solution, table split), the library routine (KKT residuals) and csg_fmatch on trajectories with exactly generated forces.",
+         "Lean kernel + three standard axioms; Eigen kernels external (certified per run); csg_fmatch covered at the executable level for pair and bond interactions (angles/dihedrals/three-body not generated).",
          "6/C06"),
  "C08": ("Lean 4 proof about record-level codecs (rounding to k decimals / s significant digits over Q, unit factors regenerated from constants.h, frame "
          "sequencing, count check, matrix/table text) + correspondence with the real writers and readers, judged clause by clause",
